@@ -315,3 +315,60 @@ fn c40_memory_continuity() {
 fn c40_memory_table_changes() {
     table_changes();
 }
+
+// ---------------------------------------------------------------------------------
+// Lender / Loan (the mechanism behind the single live context)
+// ---------------------------------------------------------------------------------
+
+/// At most one live `Loan`; dropping it allows a new one; the exclusive data persists
+/// across loans; dropping the `Lender` revokes access.
+#[kani::proof]
+#[kani::unwind(8)]
+fn c40_lender_single_loan() {
+    let s: u32 = kani::any();
+    let x: u64 = kani::any();
+    let lender = Lender::new(s, x);
+    assert!(*lender.shared() == s);
+
+    let mut loan = match lender.lend() {
+        Some(l) => l,
+        None => {
+            assert!(false);
+            return;
+        }
+    };
+    // no second loan while the first is live
+    assert!(lender.lend().is_none());
+    assert!(lender.lend().is_none());
+    match loan.get_mut() {
+        Some((a, b)) => {
+            assert!(*a == s && *b == x);
+            *b = x.wrapping_add(1);
+        }
+        None => assert!(false),
+    }
+    let again: bool = kani::any();
+    if again {
+        // the loan is returned: a new one can be taken and sees the updated data
+        drop(loan);
+        loan = match lender.lend() {
+            Some(l) => l,
+            None => {
+                assert!(false);
+                return;
+            }
+        };
+        assert!(lender.lend().is_none());
+    }
+    match loan.get_ref() {
+        Some((a, b)) => assert!(*a == s && *b == x.wrapping_add(1)),
+        None => assert!(false),
+    }
+    // revocation
+    drop(lender);
+    assert!(loan.get_mut().is_none());
+    assert!(loan.get_ref().is_none());
+    kani::cover!(again, "second loan after the first was dropped");
+    kani::cover!(!again, "single loan");
+    drop(loan);
+}
